@@ -275,6 +275,7 @@ def judge(text, m, rng, shadows=True, origin="enum"):
     from formulae.parser import Parser
 
     case = {"text": text, "origin": origin}
+    call_mode = "formula"
     # reference
     try:
         toks = G.tokenize(text)
@@ -347,11 +348,15 @@ def judge(text, m, rng, shadows=True, origin="enum"):
         if rt is not None and not ast_eq(rt, ref_ast):
             ok_alt = False
             try:
-                ok_alt = ast_eq(rt, G.parse_tokens(toks, call_mode="python"))
+                alt_ast = G.parse_tokens(toks, call_mode="python")
+                ok_alt = ast_eq(rt, alt_ast)
             except G.NotSentence:
                 pass
             if ok_alt:
+                # inside call arguments the library follows Python (sign / **): C12 owns that choice;
+                # the metamorphic variants below are derived from the AST the library agrees with
                 m.note("python-precedence-inside-call")
+                ref_ast, call_mode = alt_ast, "python"
             else:
                 m.violation("ast-equals-reference",
                             f"real {G.fp(rt) if _printable(rt) else rt} != reference {G.fp(ref_ast)}",
@@ -363,7 +368,7 @@ def judge(text, m, rng, shadows=True, origin="enum"):
     if not shadows or real[1] is None:
         return
     # metamorphic shadows through the real pipeline
-    for name, variant, add in variants(text, toks, ref_ast, rng):
+    for name, variant, add in variants(text, toks, ref_ast, rng, call_mode):
         m.ev(name)
         with core.shadow():
             out = real_model(variant, add)
@@ -385,13 +390,13 @@ def _printable(t):
         return False
 
 
-def variants(text, toks, ref_ast, rng):
+def variants(text, toks, ref_ast, rng, call_mode="formula"):
     written = [t for t in toks if not t.inserted]
     out = []
     out.append(("ws-invariance", G.respace(text, rng, written), True))
     out.append(("ws-invariance", " ".join(t.lex for t in written), True))
     try:
-        out.append(("paren-invariance", G.reparen(text, rng), True))
+        out.append(("paren-invariance", G.reparen(text, rng, call_mode=call_mode), True))
     except (G.NotSentence, RecursionError):
         pass
     try:
